@@ -13,14 +13,14 @@ pub struct Pair { pub plain: Plain, pub prs: RSched, pub s1: u64, pub r1: u64, p
 #[derive(Clone, Debug, Serialize, Deserialize)]
 pub struct PassPair { pub plain: Plain, pub prs: RSched, pub w1: Vec<u8>, pub w2: Vec<u8>, pub salt: u64 }
 #[derive(Clone, Debug, Serialize, Deserialize)]
-pub struct CliCase { pub len: usize, pub names: (String, String), pub seed: u64, pub pass_mode: bool }
+pub struct CliCase { pub len: usize, pub names: (String, String), pub seed: u64, pub pass_mode: bool, pub to_stdout: bool }
 
 /// Parse by the documented layout; returns (cleartext fields, ciphertext lengths) or what is wrong.
 fn layout(f: &[u8], hdr: usize, reads: &[usize], plain_len: usize) -> Result<Vec<u8>, String> {
     let lens: Vec<usize> = if reads.is_empty() { vec![0] } else { reads.to_vec() };
     let want_len = hdr + lens.iter().map(|l| 32 + l).sum::<usize>();
     ensure!(f.len() == want_len, "file is {} bytes; the format gives {} + 32 per chunk + plaintext = {} bytes for reads {:?}", f.len(), hdr, want_len, reads);
-    ensure!(lens.iter().sum::<usize>() == plain_len, "harness: reads do not add up");
+    ensure!(lens.iter().sum::<usize>() == plain_len, "the encryptor stopped reading after {} of {} plaintext bytes (reads {:?})", lens.iter().sum::<usize>(), plain_len, reads);
     let mut clear = f[..36.min(hdr)].to_vec(); let mut off = hdr;
     for (i, l) in lens.iter().enumerate() {
         let ctr = u64::from_be_bytes(f[off..off + 8].try_into().unwrap()); let flag = u32::from_be_bytes(f[off + 8..off + 12].try_into().unwrap()); let len = u32::from_be_bytes(f[off + 12..off + 16].try_into().unwrap()) as usize;
@@ -72,14 +72,14 @@ pub fn check_cli(c: &CliCase) -> CheckResult {
     let sb = Sandbox::new(); let p = gen::bytes_from(c.seed, c.len); sb.write("m.bin", &p);
     let nchunks = if c.len == 0 { 1 } else { (c.len + CS - 1) / CS };
     let f = if c.pass_mode {
-        let r = sb.cmd(&["password", "encrypt", "m.bin", "-o", "c.ktl", "--env-pass"]).env("KESTREL_PASSWORD", &c.names.0).run(); ensure!(r.code == Some(0), "password encrypt failed: {}", r.describe());
-        let f = sb.read("c.ktl").ok_or("no output")?; ensure!(f.len() == 36 + 32 * nchunks + c.len, "password-mode file is {} bytes for {} plaintext bytes in {} chunks", f.len(), c.len, nchunks);
+        let r = if c.to_stdout { sb.cmd(&["password", "encrypt", "m.bin", "--env-pass"]).env("KESTREL_PASSWORD", &c.names.0).run() } else { sb.cmd(&["password", "encrypt", "m.bin", "-o", "c.ktl", "--env-pass"]).env("KESTREL_PASSWORD", &c.names.0).run() }; ensure!(r.code == Some(0), "password encrypt failed: {}", r.describe());
+        let f = if c.to_stdout { r.stdout.clone() } else { sb.read("c.ktl").ok_or("no output")? }; ensure!(f.len() == 36 + 32 * nchunks + c.len, "password-mode file is {} bytes for {} plaintext bytes in {} chunks", f.len(), c.len, nchunks);
         if c.names.0.len() >= 12 { ensure!(!find(&f, c.names.0.as_bytes()), "password occurs in the file"); } f
     } else {
         let (a, b) = (cli::make_ident(&c.names.0, c.seed, "pw"), cli::make_ident(&c.names.1, c.seed ^ 1, "pw"));
         sb.write("k.txt", cli::keyring_text(&[(&a, true), (&b, false)]).as_bytes());
-        let r = sb.cmd(&["encrypt", "m.bin", "-t", &c.names.1, "-f", &c.names.0, "-o", "c.ktl", "-k", "k.txt", "--env-pass"]).env("KESTREL_PASSWORD", "pw").run(); ensure!(r.code == Some(0), "encrypt failed: {}", r.describe());
-        let f = sb.read("c.ktl").ok_or("no output")?; ensure!(f.len() == 132 + 32 * nchunks + c.len, "key-mode file is {} bytes for {} plaintext bytes in {} chunks", f.len(), c.len, nchunks);
+        let r = if c.to_stdout { sb.cmd(&["encrypt", "m.bin", "-t", &c.names.1, "-f", &c.names.0, "-k", "k.txt", "--env-pass"]).env("KESTREL_PASSWORD", "pw").run() } else { sb.cmd(&["encrypt", "m.bin", "-t", &c.names.1, "-f", &c.names.0, "-o", "c.ktl", "-k", "k.txt", "--env-pass"]).env("KESTREL_PASSWORD", "pw").run() }; ensure!(r.code == Some(0), "encrypt failed: {}", r.describe());
+        let f = if c.to_stdout { r.stdout.clone() } else { sb.read("c.ktl").ok_or("no output")? }; ensure!(f.len() == 132 + 32 * nchunks + c.len, "key-mode file is {} bytes for {} plaintext bytes in {} chunks", f.len(), c.len, nchunks);
         for (n, who) in [(&c.names.0, "sender"), (&c.names.1, "recipient")] { ensure!(!find(&f, n.as_bytes()), "the keyring name of the {} occurs in the file", who); }
         for id in [&a, &b] { for (n, what) in needles(&id.pk) { ensure!(!find(&f, &n), "the {} occurs in a file written by the CLI", what); } } f
     };
@@ -95,5 +95,5 @@ pub fn run(ctx: &Ctx) {
     ctx.pbt("identity_swap_pairs", ctx.n(10_000, 300_000), || (gen::plain_strategy(max), any::<[u64; 6]>()).prop_flat_map(|(plain, k)| { let l = plain.len; (Just(plain), gen::rsched_for(l), Just(k)) }).prop_map(|(plain, prs, k)| Pair { plain, prs, s1: k[0], r1: k[1], s2: k[2], r2: k[3], e: k[4], p: k[5] }), check_pair);
     ctx.pbt("password_swap_pairs", ctx.n(100, 2_000), || (gen::small_plain(400), gen::rsched_strategy(), gen::password_strategy(), gen::password_strategy(), any::<u64>()).prop_map(|(plain, prs, w1, w2, salt)| PassPair { plain, prs, w1, w2, salt }), check_pass_pair);
     ctx.shrink_iters.store(20, std::sync::atomic::Ordering::Relaxed);
-    ctx.pbt("cli_files", ctx.n(40, 800), || (prop_oneof![3 => 0usize..3000, 1 => Just(CS), 1 => Just(CS + 1), 1 => CS..3 * CS], ("[a-zA-Z0-9]{12,24}", "[a-zA-Z0-9]{12,24}"), any::<u64>(), prop::bool::weighted(0.25)).prop_map(|(len, names, seed, pass_mode)| CliCase { len, names, seed, pass_mode }), check_cli);
+    ctx.pbt("cli_files", ctx.n(40, 800), || (prop_oneof![3 => 0usize..3000, 1 => Just(CS), 1 => Just(CS + 1), 1 => CS..3 * CS], ("[a-zA-Z0-9]{12,24}", "[a-zA-Z0-9]{12,24}"), any::<u64>(), prop::bool::weighted(0.25), any::<bool>()).prop_map(|(len, names, seed, pass_mode, to_stdout)| CliCase { len, names, seed, pass_mode, to_stdout }), check_cli);
 }
